@@ -605,7 +605,7 @@ func init() {
 	// ---------- G7: one stringification, no position-specific transformation ----------
 
 	register(&Rule{
-		ID: "C13.R5", Props: []string{"C13", "C03", "C02"}, Min: 4, // C02: "the value's string form" is one form, fmt.Sprint, in every position
+		ID: "C13.R5", Props: []string{"C13", "C03", "C02", "C11"}, Min: 4, // C02: "the value's string form" is one form, fmt.Sprint, in every position
 		Doc: "one value, one string form, one truthiness: every expression position converts an evaluated value to its output string with fmt.Sprint (never a position-specific strconv fast path, whose float/large-number format differs), and the value handed to the truthiness table or returned as a bound value is what the scope / evaluator / pipe produced — not a reflect-transformed copy made in one position only",
 		Run: func(p *Prog, c *Ctx) {
 			positions := []string{"(*vuego.Vue).interpolateToWriter", "(*vuego.Vue).evalAttributes", "(*vuego.Vue).evalBoundAttribute", "(*vuego.Vue).evalVHtml", "(*vuego.Vue).evalVText", "(*vuego.Vue).evalVShow", "(*vuego.Vue).evalConditionExpr"}
